@@ -276,13 +276,13 @@ theorem joinBlocks_core {ir ir' : IR} {id1 id2 : Nat} {b1 b2 : Block}
     · injection h with h
       subst h
       refine ⟨hj, ?_, ?_⟩
-      · show (if b2.isCode then (ir.joinSyms b1 id2).joinCode b1 id2 else ir.joinSyms b1 id2).syms = _
+      · show (if b2.isCode then (ir.joinSyms b1 id2).joinCode b1 id2 b2.size else ir.joinSyms b1 id2).syms = _
         split
-        · rw [core_syms (joinCode_core _ _ _)]; rfl
+        · rw [core_syms (joinCode_core _ _ _ _)]; rfl
         · rfl
-      · have hb : (if b2.isCode then (ir.joinSyms b1 id2).joinCode b1 id2 else ir.joinSyms b1 id2).blocks = ir.blocks := by
+      · have hb : (if b2.isCode then (ir.joinSyms b1 id2).joinCode b1 id2 b2.size else ir.joinSyms b1 id2).blocks = ir.blocks := by
           split
-          · rw [core_blocks (joinCode_core _ _ _)]; rfl
+          · rw [core_blocks (joinCode_core _ _ _ _)]; rfl
           · rfl
         unfold IR.setBlock IR.orderRemove IR.joinTables
         simp only [hb]
